@@ -2101,13 +2101,20 @@ fuzzy_info = {json.dumps(ret)};
 
             errors = []
 
+            # VV: References are not self-delimiting (`A:ref` is a suffix of `BA:ref` and of `stage0.A:ref`), only
+            # substitute whole occurrences so that the outcome does not depend on the order of the references
+            pattern_absolute = experiment.model.frontends.flowir.pattern_whole_reference(
+                reference.absoluteReference)
+            pattern_relative = experiment.model.frontends.flowir.pattern_whole_reference(
+                reference.relativeReference)
+
             if reference.method in [DataReference.Output, DataReference.LoopOutput]:
                 # VV: The reference value is in fact the CONTENTS of the file that the data-reference points to
                 reference_value = reference_value or ""
-                if arguments.find(reference.absoluteReference) != -1:
-                    arguments = arguments.replace(reference.absoluteReference, reference_value)
-                elif arguments.find(reference.relativeReference) != -1:
-                    arguments = arguments.replace(reference.relativeReference, reference_value)
+                if pattern_absolute.search(arguments) is not None:
+                    arguments = pattern_absolute.sub(lambda m: reference_value, arguments)
+                elif pattern_relative.search(arguments) is not None:
+                    arguments = pattern_relative.sub(lambda m: reference_value, arguments)
                 else:
                     if unused is not None:
                         unused.append(experiment.model.errors.UnusedDataReferenceError(self.identification.identifier,
@@ -2126,7 +2133,7 @@ fuzzy_info = {json.dumps(ret)};
             elif reference_value is not None and reference.method in [DataReference.Ref, DataReference.LoopRef]:
                 # VV: The reference_value is definitely a path because it's a "ref" type
                 path = reference_value
-                if arguments.find(reference.absoluteReference) == -1 and arguments.find(reference.relativeReference) == -1:
+                if pattern_absolute.search(arguments) is None and pattern_relative.search(arguments) is None:
                     if unused is not None:
                         unused.append(experiment.model.errors.UnusedDataReferenceError(self.identification.identifier,
                                                                                        reference,
@@ -2139,10 +2146,10 @@ fuzzy_info = {json.dumps(ret)};
                                          )))
                 else:
                     # Resolve the reference in the command line
-                    if arguments.find(reference.absoluteReference) == -1:
-                        arguments = arguments.replace(reference.relativeReference, path)
+                    if pattern_absolute.search(arguments) is None:
+                        arguments = pattern_relative.sub(lambda m: path, arguments)
                     else:
-                        arguments = arguments.replace(reference.absoluteReference, path)
+                        arguments = pattern_absolute.sub(lambda m: path, arguments)
 
         # Check for unresolved/undeclared references in CL - this is anything of form :ref :link
 
